@@ -200,8 +200,18 @@ func init() {
 		"strings.ToUpper":    func(fr *frame, a []value) value { return strings.ToUpper(a[0].(string)) },
 		"strings.ToLower":    func(fr *frame, a []value) value { return strings.ToLower(a[0].(string)) },
 		"strings.Title":      func(fr *frame, a []value) value { return strings.Title(a[0].(string)) }, //nolint
-		"strings.HasPrefix":  func(fr *frame, a []value) value { return strings.HasPrefix(a[0].(string), a[1].(string)) },
-		"strings.HasSuffix":  func(fr *frame, a []value) value { return strings.HasSuffix(a[0].(string), a[1].(string)) },
+		"strings.HasPrefix": func(fr *frame, a []value) value {
+			if isBstr(a[0]) || isBstr(a[1]) {
+				return bstrHasPrefix(a[0], a[1])
+			}
+			return strings.HasPrefix(a[0].(string), a[1].(string))
+		},
+		"strings.HasSuffix": func(fr *frame, a []value) value {
+			if isBstr(a[0]) || isBstr(a[1]) {
+				return bstrHasSuffix(a[0], a[1])
+			}
+			return strings.HasSuffix(a[0].(string), a[1].(string))
+		},
 		"strings.TrimPrefix": func(fr *frame, a []value) value { return strings.TrimPrefix(a[0].(string), a[1].(string)) },
 		"strings.TrimSuffix": func(fr *frame, a []value) value { return strings.TrimSuffix(a[0].(string), a[1].(string)) },
 		"strings.TrimSpace":  func(fr *frame, a []value) value { return strings.TrimSpace(a[0].(string)) },
